@@ -8,6 +8,9 @@ Exploration: configuration space.  A state is one complete space configuration
   discr    uniform_discr: shape x EVERY per-axis-side nodes_on_bdry combination x domain
            extent class (unit box, uneven box, cell volume exactly 1) x dtype x exponent x
            weighting (default cell volume, explicit constant, explicit array)
+  gdiscr   uniform_discr_frompartition over uniform_partition_fromgrid(grid, min_pt, max_pt):
+           grids NOT aligned with their domain, outermost cells cropped / extended so that the
+           boundary-cell fractions are 1/2, 3/4, 1, 3/2, 7/4 independently per axis side
   prod     product spaces over tensor / discretized leaves: pairs, powers, nested to depth 3,
            own weighting (none, constant, per-component array) and exponent per node
   custom   user supplied inner= / norm= / dist= callables (tensor and product spaces)
@@ -290,6 +293,56 @@ def build_discr(cfg):
     return node
 
 
+GX0 = [0.0, -1.0, 0.5]                                  # first grid node per axis
+
+
+def gdiscr_geometry(cfg):
+    """-> shape, x0, stride, grid min, grid max, lo, hi  (all dyadic, exact in binary)."""
+    shape = tuple(cfg['shape'])
+    x0, st, gmin, gmax, lo, hi = [], [], [], [], [], []
+    for ax, (n, s_, (ol, oh)) in enumerate(zip(shape, cfg['s'], cfg['off'])):
+        x = GX0[ax]
+        x0.append(x)
+        if n == 1:                              # offsets are absolute lengths, stride is void
+            st.append(0.0)
+            gmin.append(x)
+            gmax.append(x)
+            lo.append(x - ol)
+            hi.append(x + oh)
+        else:                                   # offsets in units of the cell side
+            st.append(float(s_))
+            gmin.append(x)
+            gmax.append(x + (n - 1) * s_)
+            lo.append(x - ol * s_)
+            hi.append(x + (n - 1) * s_ + oh * s_)
+    return shape, x0, st, gmin, gmax, lo, hi
+
+
+def build_gdiscr(cfg):
+    """uniform_discr_frompartition(uniform_partition_fromgrid(grid, min_pt, max_pt)): outermost
+    cells cropped or extended by arbitrary amounts, independently per axis side."""
+    shape, x0, st, gmin, gmax, lo, hi = gdiscr_geometry(cfg)
+    dt = np.dtype(cfg['dtype'])
+    p = _p(cfg['p'])
+
+    def arg(v):
+        return v if len(v) > 1 else v[0]
+
+    grid = odl.uniform_grid(arg(gmin), arg(gmax), arg(list(shape)))
+    part = odl.uniform_partition_fromgrid(grid, min_pt=arg(lo), max_pt=arg(hi))
+    kw = {'dtype': dt}
+    if cfg['p'] != 2:
+        kw['exponent'] = p
+    space = odl.uniform_discr_frompartition(part, **kw)
+    W = R.grid_weights(x0, st, shape, lo, hi)
+    node = Diag(space, shape, dt, W, p, cfg.get('lay', 'C'))
+    node.exact = False
+    # exponent inf: docstring (cell volume) and code (1.0) disagree, see build_discr
+    node.judge = p != INF
+    node.volume = float(R.domain_volume(lo, hi)) if p == 2.0 else None
+    return node
+
+
 def build_prod(cfg):
     parts_cfg = cfg['parts']
     power = cfg.get('power')
@@ -356,6 +409,8 @@ def build(cfg):
         return build_npyfree(cfg)
     if k == 'discr':
         return build_discr(cfg)
+    if k == 'gdiscr':
+        return build_gdiscr(cfg)
     if k == 'prod':
         return build_prod(cfg)
     raise KeyError(k)
@@ -841,6 +896,16 @@ def site_of(cfg):
         return 'uniform_discr[w=%s,%s,%s,%s,%s]' % (w, _pcls(cfg['p']), cfg['dtype'],
                                                     'bdry' if frac else 'nobdry',
                                                     'cv1' if cv1 else 'cv')
+    if k == 'gdiscr':
+        shape, x0, st, gmin, gmax, lo, hi = gdiscr_geometry(cfg)
+        fr = [f for pr in R.grid_fractions(x0, st, shape, lo, hi) for f in pr]
+        cls = 'fr1' if all(f == 1 for f in fr) else (
+            'frhalf' if all(f in (1, R.Fr(1, 2)) for f in fr) else 'frany')
+        vol = R.Fr(1)
+        for n, s_, a, b in zip(shape, st, lo, hi):
+            vol *= (R.Fr(b) - R.Fr(a)) if n == 1 else R.Fr(s_)
+        return 'discr_frompartition[w=default,%s,%s,%s,%s]' % (
+            _pcls(cfg['p']), cfg['dtype'], cls, 'cv1' if vol == 1 else 'cv')
     if k == 'prod':
         ps, dts = set(), set()
         _walk(cfg, ps, dts, top=True)
@@ -979,6 +1044,62 @@ def _discr_configs(thorough):
     return out
 
 
+def GD(shape, s, off, dtype='float64', p=2, lay='C'):
+    return {'kind': 'gdiscr', 'shape': list(shape), 's': list(s), 'off': [list(o) for o in off],
+            'dtype': dtype, 'p': p, 'lay': lay}
+
+
+def _gdiscr_configs(thorough):
+    """Grids not aligned with their domain: boundary-cell fractions 1/2 (node on the boundary),
+    3/4 (cropped), 1, 3/2 and 7/4 (extended), independently per axis side."""
+    out = []
+    ps = PS_T if thorough else PS_Q
+    offs = [0.0, 0.25, 0.5, 1.0, 1.25] if thorough else [0.0, 0.25, 0.5, 1.25]
+    # ---- 1-d: every (left, right) offset pair
+    for n in (1, 2, 3, 5):
+        for ol in offs:
+            for oh in offs:
+                if n == 1 and ol + oh == 0:
+                    continue                    # empty domain
+                for p in ps:
+                    out.append(GD([n], [0.5], [(ol, oh)], 'float64', p))
+                # cell side exactly 1 (weighting constant 1.0), other dtypes
+                for p in ((2, 1.5, 1) if thorough else (2,)):
+                    out.append(GD([n], [1.0], [(ol, oh)], 'float64', p))
+                if thorough or (ol, oh) in ((0.25, 1.25), (0.5, 0.5), (1.25, 0.0)):
+                    for dt in ('complex128', 'float32') + (('complex64',) if thorough else ()):
+                        for p in (2, 1.5):
+                            out.append(GD([n], [0.5], [(ol, oh)], dt, p))
+    # ---- 2-d: pairs of axis configurations
+    ax = [(0.25, 1.25), (0.5, 0.5), (0.0, 0.5), (1.0, 0.25), (0.5, 1.25)]
+    if thorough:
+        ax += [(0.0, 0.0), (1.25, 0.0), (0.25, 0.25)]
+    shapes = [(2, 3), (3, 1), (1, 2), (3, 3)] if not thorough else \
+        list(itertools.product((1, 2, 3), repeat=2)) + [(5, 2), (3, 5)]
+    for sh in shapes:
+        for a0 in ax:
+            for a1 in ax:
+                for st, pl in (([0.5, 0.25], (2, 1.5) + ((1, 'inf') if thorough else ())),
+                               ([0.5, 2.0], (2,))):        # second: cell volume exactly 1
+                    for p in pl:
+                        out.append(GD(sh, st, [a0, a1], 'float64', p))
+                if sh == (2, 3):
+                    out.append(GD(sh, [0.5, 0.25], [a0, a1], 'float64', 2, 'F'))
+                    if thorough:
+                        for dt in ('complex128', 'float32'):
+                            out.append(GD(sh, [0.5, 0.25], [a0, a1], dt, 2))
+    # ---- 3-d and a large grid
+    for a in ([(0.25, 1.25), (0.5, 0.5), (1.0, 0.25)], [(0.5, 1.0), (0.25, 0.25), (0.0, 1.25)],
+              [(0.25, 0.5), (0.5, 0.5), (0.5, 0.5)]):
+        for p in (2, 1.5):
+            out.append(GD([2, 3, 2], [0.5, 0.25, 2.0], a, 'float64', p))
+            out.append(GD([3, 1, 2], [0.5, 0.25, 2.0], a, 'float64', p))
+    for dt in ('float64', 'float32'):
+        for p in (2, 1.5):
+            out.append(GD([50001], [0.5], [(0.25, 1.25)], dt, p))
+    return out
+
+
 def _leaves():
     return {
         'rn1': T([1]),
@@ -1085,6 +1206,7 @@ def configs(tier):
     cfgs += _tensor_configs(thorough)
     cfgs += _custom_configs(thorough)
     cfgs += _discr_configs(thorough)
+    cfgs += _gdiscr_configs(thorough)
     cfgs += _prod_configs(thorough)
     cfgs += [{'kind': 'empty', 'how': 'power0'}, {'kind': 'empty', 'how': 'field'}]
     # simplest first: by number of entries, then as generated
@@ -1093,7 +1215,7 @@ def configs(tier):
         # scope of the all-of-V^n visit: full in the thorough tier, except for degenerate
         # multi-dimensional grids (shape (1, 1, 3) ...) whose 1-d twins already get it
         sc = 't' if thorough else 'q'
-        if c['kind'] == 'discr' and len(c['shape']) > 1:
+        if c['kind'] in ('discr', 'gdiscr') and len(c['shape']) > 1:
             sc = 'q' if (thorough and len(c['shape']) == 2) else 'p'
         c = dict(c, sc=sc)
         k = repr(sorted(c.items(), key=lambda kv: kv[0]))
@@ -1115,6 +1237,11 @@ def _describe(cfg):
         return ('uniform_discr(%s, %s, %s, nodes_on_bdry=%s, dtype=%s, exponent=%s, weighting=%s)'
                 ' layout=%s' % (lo, hi, shape, bdry, cfg['dtype'], cfg['p'], cfg['w'],
                                 cfg.get('lay', 'C')))
+    if k == 'gdiscr':
+        shape, x0, st, gmin, gmax, lo, hi = gdiscr_geometry(cfg)
+        return ('uniform_discr_frompartition(uniform_partition_fromgrid(uniform_grid(%s, %s, %s), '
+                'min_pt=%s, max_pt=%s), dtype=%s, exponent=%s) layout=%s'
+                % (gmin, gmax, shape, lo, hi, cfg['dtype'], cfg['p'], cfg.get('lay', 'C')))
     if k == 'prod':
         return 'ProductSpace %s weighting=%s exponent=%s' % (cfg['name'], cfg['w'], cfg['p'])
     if k == 'custom':
@@ -1229,6 +1356,11 @@ def meta(tier):
                             '{1,2,3,5}^1 x 4, {1,2,3}^2 x 16 nodes_on_bdry combinations, 8 3-d',
             'discr extents': ['unit box', 'uneven box (sides 1.75, 3.25, 0.75)',
                               'every cell side 1', 'cell sides 1/2 x 2 (x 1): cell volume 1'],
+            'misaligned grids': 'uniform_partition_fromgrid: shapes {1,2,3,5}^1 x all (left, '
+                                'right) offset pairs of %s cell sides; 2-d: %d axis-offset pairs^2 '
+                                'x %s; 6 3-d; 50001'
+                                % (([0, .25, .5, 1, 1.25], 8, '{1,2,3}^2, (5,2), (3,5)') if thorough
+                                   else ([0, .25, .5, 1.25], 5, '(2,3), (3,1), (1,2), (3,3)')),
             'product spaces': [s[0] for s in _prod_structs(thorough)],
             'product weightings': ['none', 0.5, 2.0, 'per-component array %s' % PWA],
         },
